@@ -259,6 +259,14 @@ class Ev:
             if PURE_BUILTINS.get(e.id) is not None:
                 return PURE_BUILTINS[e.id]
             raise Undecided("name " + e.id)
+        if isinstance(e, (ast.Tuple, ast.List, ast.Set)) and any(isinstance(x, ast.Starred) for x in e.elts):
+            vals = []
+            for x in e.elts:
+                if isinstance(x, ast.Starred):
+                    vals.extend(self.ev(x.value))
+                else:
+                    vals.append(self.ev(x))
+            return tuple(vals) if isinstance(e, ast.Tuple) else (vals if isinstance(e, ast.List) else set(vals))
         if isinstance(e, ast.Tuple):
             return tuple(self.ev(x) for x in e.elts)
         if isinstance(e, ast.List):
